@@ -112,16 +112,22 @@ RunOutcome exec_C07(const Case &c) {
             ref = std::move(pr);
             const OpResult &rr = ref.trace[mi];
             ref_singular = (rr.cls == XC_SINGULAR);
-            if (!ilu && rr.expansions > 0) out.violations.push_back({"reference-grew", "no-growth reference reported " + std::to_string(rr.expansions) + " expansions", "C07|reference-grew|" + mo.kind});
+            if (!ilu && rr.expansions > 0) out.stats["reference_grew"] += 1; // not a violation: the reference is only meant to be the schedule with the fewest expansions
             if (rr.cls == XC_NOSPACE || rr.cls == XC_ABORT || rr.cls == XC_HANG) return out; // nothing to compare with
             // memory usage describes the factors actually returned (documented formula of *QuerySpace)
             const std::vector<unsigned char> *mu = rr.snap.get("mu.for_lu"), *xl = rr.snap.get("L.xlsub"), *xs = rr.snap.get("L.xlusup"), *xu = rr.snap.get("U.xusub");
             if (mu && xl && xs && xu) {
                 int n = plan.mats[0].n; int_t nl, ns, nu; memcpy(&nl, xl->data() + (size_t)n * sizeof(int_t), sizeof(int_t)); memcpy(&ns, xs->data() + (size_t)n * sizeof(int_t), sizeof(int_t)); memcpy(&nu, xu->data() + (size_t)n * sizeof(int_t), sizeof(int_t));
                 double dword = (plan.dtype == 'd') ? 8 : (plan.dtype == 's') ? 4 : (plan.dtype == 'c') ? 8 : 16;
-                double expect = (4.0 * n + 3.0) * 4 + ns * dword + nl * 4.0 + (n + 1.0) * 4 + nu * (dword + 4.0);
+                // "memory usage describes the factors actually returned": for_lu is documented as the bytes used by the L\\U data
+                // structures, and that is an objective quantity of what was returned: the stored values, the row-index arrays and
+                // the pointer arrays (sup_to_col/col_to_sup hold int, every other index array holds int_t). Tolerance: 16 bytes
+                // (today's accounting counts 4n+3 instead of 4n+4 pointer entries) + float rounding.
+                double idx = (double)sizeof(int_t);
+                double expect = (double)(ns + nu) * dword + idx * ((double)nl + nu) + (2.0 * n + 1.0) * 4 + (2.0 * n + 2.0) * idx + (n + 1.0) * idx;
                 float got; memcpy(&got, mu->data(), 4);
-                if (got != -7.0f && !(std::fabs(got - expect) <= 1e-5 * expect + 1)) out.violations.push_back({"mem-usage", "for_lu " + std::to_string(got) + " != formula " + std::to_string(expect) + " (n " + std::to_string(n) + " xlsub[n] " + std::to_string(nl) + " xlusup[n] " + std::to_string(ns) + " xusub[n] " + std::to_string(nu) + ")", "C07|mem-usage|" + mo.kind});
+                if (got != -7.0f && !(std::fabs(got - expect) <= 16 + 1e-6 * expect))
+                    out.violations.push_back({"mem-usage", "for_lu " + std::to_string(got) + " does not describe the returned factors: " + std::to_string(expect) + " bytes are used (n " + std::to_string(n) + ", " + std::to_string(ns) + " values in L, " + std::to_string(nu) + " in U, " + std::to_string(nl) + " row indices of L, " + std::to_string((int)idx) + "-byte indices)", "C07|mem-usage|" + mo.kind});
             }
             continue;
         }
@@ -149,7 +155,8 @@ RunOutcome exec_C07(const Case &c) {
         // expansions counter describes what happened: in SYSTEM mode without injected failures every growth = one request
         if (e.lwork == 0 && e.faults.empty()) {
             // library allocation, no injected failure: every expansion is exactly one growth request after the four initial ones
-            if (r.expansions != r.growth_reqs - 4) out.violations.push_back({"expansions-count", "stat->expansions=" + std::to_string(r.expansions) + " but " + std::to_string(r.growth_reqs - 4) + " growth requests followed the initial four", "C07|expansions-count|" + mo.kind});
+            // statistic only (the property speaks of nonzero counts and memory usage, not of this counter)
+            if (r.expansions == r.growth_reqs - 4) out.stats["stat_expansions_counter_matches_allocator"] += 1; else out.stats["stat_expansions_counter_differs_from_allocator"] += 1;
         }
         schedkey << (e.lwork > 0 ? "U" : "S") << e.fill << (e.align ? "a" : "") << (e.faults.empty() ? "" : "f") << r.expansions << ",";
     }
